@@ -39,7 +39,7 @@ RULE = (
     "swap/alter-leaf/retype/replace-subtree) or an independent value; a string leaf of the payload that has spelling near-misses is, in two mutations of three that hit it, "
     "replaced by one of them: its UN-DECODED source spelling under the case's or another style (kind 'undecoded': backslash+t instead of TAB, two backslashes instead of one), the value decoded once more, "
     "or a neighbour (TAB->space/t, backslash doubled/dropped, one quote character for the other, e-acute->e) (kind 'alter-escape'); program `match Ev(p=P[,q=Q])` then `send Hit()`; the event "
-    "carries 0-2 unmentioned parameters; in half of the cases the pattern is held in flow variables, in half the statement captures the event (`as $ref`) inside a loop and judges a second, different payload. In one case of six the pattern is matched against the start arguments of an action instance (`match XAction(p=P).Finished()` on the Finished event of an action started with those arguments). Plus a small exhaustive table over leaves {2,'a'} depth<=2 and instance cases "
+    "carries 0-2 unmentioned parameters; in half of the cases the pattern is held in flow variables, in half the statement captures the event (`as $ref`) inside a loop and judges a second, different payload. In one case of six the pattern is matched against the start arguments of an action instance (in half of these the start arguments are themselves held in flow variables: `$s_p = V`, `start XAction(p=$s_p)`) (`match XAction(p=P).Finished()` on the Finished event of an action started with those arguments). Plus a small exhaustive table over leaves {2,'a'} depth<=2 and instance cases "
     "($ref.Finished() of action/flow instances), plus the table regex pool x value pool (all witnesses/non-witnesses, '', numbers) in three shapes "
     "(bare, inside a longer list, inside a larger dict), plus the string table: 15 pool strings x 6 spelling styles x (the value, <=5 spelling near-misses) in four shapes (whole parameter, inside a longer list, "
     "a larger dict, a larger set), statement forms rotating (literal / variable + loop with capture / action start arguments). In half of all generated cases (every form) and in a slice of the enumerated ones the flow executes `priority p`, "
@@ -615,6 +615,10 @@ def _case(draw):
         case["bulk"] = draw(_bulk(pay))
     if via_action:
         case["form"] = "action_args"
+        # the start arguments may be held in flow variables (`$s_p = <V>` then `start XAction(p=$s_p)`); the key is only
+        # present when set, so that earlier replay files keep their meaning
+        if draw(st.booleans()):
+            case["start_via_var"] = True
         return case
     # the pattern may be held in flow variables (`$v_p = <P>` then `match Ev(p=$v_p)`), the statement may capture the event
     # (`as $ref`) and sit in a loop so that the SAME statement judges a second, different event
@@ -694,6 +698,7 @@ def enumerate_cases(tier):
             yield dict(base, form="param")
             yield dict(base, form="param", via_var=True, second={"payload": {"p": witness(P)}, "extra": {}})
             yield dict(base, form="action_args")
+            yield dict(base, form="action_args", start_via_var=True)
         for target in [0, 1, "none"]:
             yield {"form": "action_instance", "which": 1, "target": target, "n": 3, "with_args": True, "event": "Finished", "priority": pr}
             yield {"form": "flow_instance", "which": 1, "target": target if isinstance(target, int) else 2, "n": 3, "with_args": True, "event": "Finished", "priority": pr}
@@ -933,7 +938,11 @@ def _action_args_case(case):
         return ok(skip="empty set literal")
     pat_args = ", ".join(f"{k}={lit(v, style)}" for k, v in pats.items())
     prio, prio_labels = _prio(case)
-    program = f"flow main\n  start XAction({start_args}) as $a\n{prio}  match XAction({pat_args}).Finished()\n  send Hit()\n  match Never()\n"
+    assigns = ""
+    if case.get("start_via_var"):
+        assigns = "".join(f"  $s_{k} = {lit(v, style)}\n" for k, v in pay.items())
+        start_args = ", ".join(f"{k}=$s_{k}" for k in pay)
+    program = f"flow main\n{assigns}  start XAction({start_args}) as $a\n{prio}  match XAction({pat_args}).Finished()\n  send Hit()\n  match Never()\n"
     state = smh.init(program)
     starts = [e for e in state.outgoing_events if e["type"] == "StartXAction"]
     if len(starts) != 1:
@@ -943,13 +952,15 @@ def _action_args_case(case):
     if got != expected:
         raise Violation(
             "action-arguments-verdict",
-            f"action started as XAction({_short(start_args)}); {'`' + prio.strip() + '` then ' if prio else ''}`match XAction({pat_args}).Finished()` {'matched' if got else 'did not match'} its Finished event, rule says {'match' if expected else 'no match'}"
+            f"action started as XAction({_short(start_args)}){' after ' + _short(assigns.replace(chr(10), '; ').strip()) if assigns else ''}; {'`' + prio.strip() + '` then ' if prio else ''}`match XAction({pat_args}).Finished()` {'matched' if got else 'did not match'} its Finished event, rule says {'match' if expected else 'no match'}"
             + _bulk_note(case),
         )
     d = max(depth(P) for P in pats.values())
     zw = ["zero-width-regex"] if any(has_zw(P) for P in pats.values()) else []
     zw += _string_labels(case)
     zw += _bulk_labels(case)
+    if case.get("start_via_var"):
+        zw.append("action-start-arguments-held-in-variables")
     return ok(nt=d >= 1 or "escaped-string" in zw, labels=["action-args", "match" if expected else "no-match", f"depth{d}"] + zw + prio_labels, view={"start": f"XAction({_short(start_args)})", "statement": f"match XAction({pat_args}).Finished()", "matched": got})
 
 
